@@ -12,6 +12,9 @@ def build(P):
     T.externals(P.reg)
     P.verify(T.ED + "EventDispatcher.dispatch", T.dispatch_contract(), tags=("C04",))
     P.verify(T.ED + "EventDispatcher.publish", T.publish_contract(), tags=("C04",))
+    # acknowledging one event acknowledges that delivery only: another execution's in-progress event stays unacknowledged
+    # and is redelivered after a crash
+    P.verify(T.ED + "EventDispatcher.acknowledge", T.acknowledge_contract(), tags=("C04",))
     for c in (D.schedule_orphaned_response_handler_contract(), D.handle_orphaned_responses_contract()):
         P.verify(c.key, c, tags=("C04",), timeout=30)
     P.explanation = ("What contracts carry of the crash argument: a redelivered task event does not send its request again but "
